@@ -317,6 +317,26 @@ def fam_lineno(rng):
     return rs, cfg, gen
 
 
+def fam_inputbol(rng):
+    """yyinput() and the beginning-of-line flag: many ^ rules, lines of one or two characters, actions that read one to
+    three characters with yyinput() (so: a newline and then something else, or the other way round) and log yyatbol();
+    the next token starts at the beginning of a line exactly when the last character read was a newline (C06, C08)"""
+    rs = rules.gen_ruleset(rng, p_trail=0.1, p_bol=0.6)
+    cfg = rt.Config(ledger=rng.random() < 0.3, backend=_backend(rng, cxx=True), topt=rng.choice(TOPTS), interactive=rng.choice([None, False]),
+                    lineno=rng.random() < 0.4)
+    inner = _ops_case(kinds=['input', 'return'])
+
+    def gen(rng, rs, cfg):
+        c = inner(rng, rs, cfg)
+        c['srcs'] = [[10 if rng.random() < 0.3 else b for b in w] for w in c['srcs']]
+        for k in range(0, 80):
+            if rng.random() < 0.4:
+                c['acts'][k] = ['input'] * rng.choice([1, 2, 2, 3]) + (['atbol'] if rng.random() < 0.5 else [])
+        return c
+    gen.small = inner.small
+    return rs, cfg, gen
+
+
 def fam_trail(rng):
     rs = rules.gen_ruleset(rng, p_trail=0.6, p_bol=0.3, p_chain=rng.choice([0.0, 0.25, 0.4]))
     cfg = rt.Config(ledger=rng.random() < 0.5, backend=_backend(rng, cxx=True), topt=rng.choice(TOPTS), interactive=rng.choice([None, False]))
@@ -560,5 +580,5 @@ def fam_sertrail(rng):
     return rs, cfg, _ops_case(kinds=['less', 'return'] + (['reject'] if rej else []), small=not rej)
 
 
-FAMILIES = {'sertrail': fam_sertrail, 'buffers': fam_buffers, 'include': fam_include, 'plain': fam_plain, 'ops': fam_ops, 'unput': fam_unput, 'reject': fam_reject,
+FAMILIES = {'inputbol': fam_inputbol, 'sertrail': fam_sertrail, 'buffers': fam_buffers, 'include': fam_include, 'plain': fam_plain, 'ops': fam_ops, 'unput': fam_unput, 'reject': fam_reject,
             'lineno': fam_lineno, 'trail': fam_trail, 'eof': fam_eof, 'deepstack': fam_deepstack, 'reads': fam_reads, 'bufreq': fam_bufreq, 'arraymore': fam_arraymore, 'wrapbol': fam_wrapbol}
